@@ -46,6 +46,7 @@ type boundsEngine struct {
 	fieldLen map[*types.Var]*int64 // constant-length invariants of slice fields (nil = none)
 	writes   map[*ssa.Function]map[*types.Var]bool
 	extra    func(a *boundsAn, ins ssa.Instruction) []boundsOb // additional obligations (E3 rules)
+	assume   func(a *boundsAn)                                 // facts a rule has established at every call site of the analysed function (assume-guarantee)
 	trusted  map[string]bool
 	// integer parameters assumed non-negative during the analysis in progress (see summary)
 	assumeNonNeg []*ssa.Parameter
@@ -103,6 +104,7 @@ type boundsAn struct {
 	in       map[*ssa.BasicBlock]factSet
 	obs      []boundsOb
 	callSeen map[ssa.Value]bool
+	alts     map[sym][]lin // call results known to equal one of a few forms (selectors such as 'n or the header length')
 }
 
 // defFact is a fact that holds wherever its anchor value is defined (i.e. at
@@ -276,6 +278,15 @@ func (a *boundsAn) formOf0(v ssa.Value) lin {
 		if g := staticCallee(&x.Call); g != nil {
 			if f, ok := a.resultForm(x, g, 0); ok {
 				return f
+			}
+			// a selector: every return hands back one of its parameters or a constant
+			if forms, ok := a.selectorForms(x, g); ok {
+				s := a.sv(v, 'v')
+				if a.alts == nil {
+					a.alts = map[sym][]lin{}
+				}
+				a.alts[sym{canon(v), 'v'}] = forms
+				return s
 			}
 		}
 	case *ssa.Extract:
@@ -960,6 +971,10 @@ func (e *boundsEngine) analyse(g *ssa.Function, s *fnSummary) {
 			a.addDef(a.sv(par, 'v'))
 		}
 	}
+	if e.assume != nil {
+		a.anchor = nil
+		e.assume(a)
+	}
 	// pass 0: touch every value so that definition facts (contracts, inductions, copy/min) exist
 	for _, b := range g.Blocks {
 		for _, ins := range b.Instrs {
@@ -1033,7 +1048,7 @@ func (e *boundsEngine) analyse(g *ssa.Function, s *fnSummary) {
 			for k, f := range a.defsAt(ob.ins) {
 				all[k] = f
 			}
-			if proveGE(ob.e, all) || a.proveBySplit(ob.e, b, ob.ins, all, 0) || a.proveByMinSplit(ob.e, all, 0) {
+			if proveGE(ob.e, all) || a.proveBySplit(ob.e, b, ob.ins, all, 0) || a.proveByMinSplit(ob.e, all, 0) || a.proveByAltSplit(ob.e, all) {
 				s.proven++
 				continue
 			}
@@ -1061,7 +1076,7 @@ func (e *boundsEngine) analyse(g *ssa.Function, s *fnSummary) {
 					for k, f := range a.defsAt(ob.ins) {
 						all[k] = f
 					}
-					if proveGE(ob.e, all) || a.proveBySplit(ob.e, b, ob.ins, all, 0) || a.proveByMinSplit(ob.e, all, 0) {
+					if proveGE(ob.e, all) || a.proveBySplit(ob.e, b, ob.ins, all, 0) || a.proveByMinSplit(ob.e, all, 0) || a.proveByAltSplit(ob.e, all) {
 						s.extraOK++
 					} else {
 						s.extraBad = append(s.extraBad, ob)
@@ -1925,6 +1940,95 @@ func (a *boundsAn) proveByMinSplit(e lin, facts factSet, depth int) bool {
 			}
 			e2 := e.sub(s.scale(coef)).add(ak.scale(coef))
 			if !(proveGE(e2, F) || a.proveByMinSplit(e2, F, depth+1)) {
+				all = false
+				break
+			}
+		}
+		if all {
+			return true
+		}
+	}
+	return false
+}
+
+
+// selectorForms: g has a single integer result and every return hands back (through phis that are not loop
+// headers) one of g's integer parameters or a constant. The call's result then equals one of the
+// corresponding arguments / constants; which one is not modelled.
+func (a *boundsAn) selectorForms(call *ssa.Call, g *ssa.Function) ([]lin, bool) {
+	if g.Blocks == nil || g.Signature.Results().Len() != 1 || !InModule(g) {
+		return nil, false
+	}
+	var forms []lin
+	seen := map[ssa.Value]bool{}
+	var leaf func(v ssa.Value, depth int) bool
+	leaf = func(v ssa.Value, depth int) bool {
+		if depth > 4 || len(forms) > 4 {
+			return false
+		}
+		if seen[v] {
+			return true
+		}
+		seen[v] = true
+		switch x := v.(type) {
+		case *ssa.Const:
+			n, ok := constInt(x)
+			if !ok {
+				return false
+			}
+			forms = append(forms, linConst(n))
+			return true
+		case *ssa.Parameter:
+			for i, p := range g.Params {
+				if p == x && i < len(call.Call.Args) {
+					forms = append(forms, a.formOf(call.Call.Args[i]))
+					return true
+				}
+			}
+			return false
+		case *ssa.Phi:
+			for _, pr := range x.Block().Preds {
+				if x.Block().Dominates(pr) {
+					return false // loop header
+				}
+			}
+			for _, e := range x.Edges {
+				if !leaf(e, depth+1) {
+					return false
+				}
+			}
+			return true
+		}
+		return false
+	}
+	n := 0
+	for _, b := range g.Blocks {
+		r, ok := b.Instrs[len(b.Instrs)-1].(*ssa.Return)
+		if !ok {
+			continue
+		}
+		n++
+		if len(r.Results) != 1 || !leaf(r.Results[0], 0) {
+			return nil, false
+		}
+	}
+	if n == 0 || len(forms) < 2 || len(forms) > 4 {
+		return nil, false
+	}
+	return forms, true
+}
+
+// proveByAltSplit: case split over a call result that equals one of a few known forms.
+func (a *boundsAn) proveByAltSplit(e lin, facts factSet) bool {
+	for sy, coef := range e.t {
+		forms, ok := a.alts[sy]
+		if !ok {
+			continue
+		}
+		all := true
+		for _, f := range forms {
+			e2 := e.sub(linSym(sy).scale(coef)).add(f.scale(coef))
+			if !(proveGE(e2, facts) || a.proveByMinSplit(e2, facts, 0)) {
 				all = false
 				break
 			}
